@@ -43,6 +43,7 @@ RULES = [
     ('E4-closure-wildcard2', r'\|_,\s*_\|', '|_a0, _a1|', 'closure wildcard parameters renamed (Verus rejects `_` closure params)'),
     ('E4-closure-wildcard1', r'\|_\|', '|_a0|', 'closure wildcard parameter renamed'),
     ('E4-compound-add-deref', r'\*(\w+) \+= (\w+)', r'*\1 = *\1 + \2', '`*x += y` -> `*x = *x + y` (Verus panics on compound assignment through &mut f64)'),
+    ('E4-checked-div', r'(\w+)\.checked_div\((\w+)\)', r'vx_checked_div(\1, \2)', '`a.checked_div(b)` -> stand-in with Rust\'s documented truncating semantics (vstd leaves negative operands unspecified)'),
     ('E4-unimplemented', r'\bunimplemented!\(\)', 'vx_unreachable()', '`unimplemented!()` -> call with `requires false` (reachability becomes an obligation)'),
     ('E4-panic', r'\bpanic!\([^;]*\)', 'vx_unreachable()', '`panic!(..)` -> call with `requires false`'),
 ]
@@ -150,6 +151,9 @@ class Expander:
         except ScanError as e:
             raise AnchorLost(str(e))
         text = apply_types(strip_attrs(s.text[hs:bc + 1]), self.rules_fired)
+        if kv['kind'] == 'struct':
+            # rule E1: fields are made `pub` (visibility only) so that spec functions may mention them
+            text = re.sub(r'(?m)^(\s+)(?!pub\b)(\w+\s*:)', r'\1pub \2', text)
         for k in kv:
             if k.startswith('sub'):
                 a, b = kv[k].split('=>')
@@ -157,6 +161,8 @@ class Expander:
         self.items.append({'file': kv['file'], 'kind': kv['kind'], 'name': kv['name'],
                            'lines': [s.line_of(hs), s.line_of(bc)]})
         self.emit('// ---- extracted %s %s from %s:%d-%d' % (kv['kind'], kv['name'], kv['file'], s.line_of(hs), s.line_of(bc)))
+        if kv.get('keep_derive'):
+            self.emit('#[derive(%s)]' % kv['keep_derive'])
         self.emit(text)
 
     def do_fn(self, kv, sections):
@@ -269,6 +275,38 @@ class Expander:
                 kw, bopen = loops[n_ - 1]
                 inv = '\n' + '\n'.join(loop_secs[n_]) + '\n'
                 body_text = body_text[:bopen] + inv + body_text[bopen:]
+        # closure contracts (rule E5b): the n-th closure of the emitted body gets the annotated header from the contract file
+        clo_secs = {int(k.split()[1]): v for k, v in sections.items() if k.startswith('closure ')}
+        if clo_secs:
+            tmp = Source('<body>', body_text)
+            clos = tmp.closures_in(0, len(body_text))
+            if max(clo_secs) > len(clos):
+                raise AnchorLost('%s: closure #%d no longer exists (%d closures)' % (label, max(clo_secs), len(clos)))
+            arith = set(int(x) for x in ' '.join(sections.get('arith-standin', [])).split())
+            for n_ in sorted(clo_secs, reverse=True):
+                bar, hend, bs, be, is_block = clos[n_ - 1]
+                if n_ in arith:
+                    # rule E4-arith: `a op b` on plain identifiers -> VxArith::vx_op(a, b) (type-directed stand-in, see prelude)
+                    seg = body_text[bs:be]
+                    names = {'+': 'vx_add', '-': 'vx_sub', '*': 'vx_mul', '/': 'vx_div'}
+                    seg2, cnt = re.subn(r'(?<![\w.)])(\w+) ([-+*/]) (\w+)(?![\w(.])', lambda m: '%s(%s, %s)' % (names[m.group(2)], m.group(1), m.group(3)), seg)
+                    seg2, cnt2 = re.subn(r'(?<![\w.)\]] )-(x)\b(?![\w(.])', r'vx_neg(\1)', seg2)
+                    if cnt + cnt2:
+                        self.rules_fired['E4-arith'] = self.rules_fired.get('E4-arith', 0) + cnt + cnt2
+                        body_text = body_text[:bs] + seg2 + body_text[be:]
+                        be = bs + len(seg2)
+                lines_ = clo_secs[n_]
+                header = lines_[0].strip()
+                spec = '\n'.join(lines_[1:])
+                # the parameter names in the contract header must be the ones in the source
+                src_params = re.findall(r'[A-Za-z_]\w*', re.sub(r':[^,|]*', '', body_text[bar:hend]))
+                hdr_params = re.findall(r'[A-Za-z_]\w*', re.sub(r':[^,|]*', '', header[:header.rfind('|') + 1] if '->' not in header else header[:header.index('->')]))
+                if src_params != hdr_params:
+                    raise AnchorLost('%s: closure #%d parameters changed: %s vs contract %s' % (label, n_, src_params, hdr_params))
+                body_c = body_text[bs:be]
+                if not is_block:
+                    body_c = '{ ' + body_c + ' }'
+                body_text = body_text[:bar] + header + '\n' + spec + '\n' + body_c + body_text[be:]
         if 'pre' in sections:
             body_text = '{\n' + '\n'.join(sections['pre']) + '\n' + body_text[1:]
 
@@ -302,6 +340,16 @@ class Expander:
     # ------------------------------------------------------------ driver
     def expand(self, template_text):
         lines = template_text.split('\n')
+        # //@include <file> (relative to /verif/contracts), expanded first, recursively
+        k = 0
+        while k < len(lines):
+            st = lines[k].strip()
+            if st.startswith('//@include'):
+                inc = st[len('//@include'):].strip()
+                path = os.path.join(os.path.dirname(os.path.abspath(__file__)), '..', 'contracts', inc)
+                lines[k:k + 1] = open(path).read().split('\n')
+                continue
+            k += 1
         i = 0
         while i < len(lines):
             ln = lines[i]
